@@ -49,7 +49,7 @@ func c08Case(w *core.W, p *project, family string) bool {
 	var err, exErr, oasErr error
 	var ex, oas []byte
 	comps := map[string][]byte{}
-	var compErr string
+	var compErr, infoErr string
 	hasRoot := false
 	rec, site := guard(func() {
 		root, berr := buildProject(p)
@@ -75,6 +75,28 @@ func c08Case(w *core.W, p *project, family string) bool {
 			}
 			comps[strings.TrimLeft(name, "@")] = b
 		}
+		// the dereferenced view of the same schema (what an API document builds its
+		// parameter lists from): every informer answers, and renders to JSON
+		var walk func(inf openapi.SchemaInformer, depth int)
+		walk = func(inf openapi.SchemaInformer, depth int) {
+			_ = inf.Type()
+			_ = inf.Annotation()
+			b, e := inf.SchemaObject().MarshalJSON()
+			if e != nil || !stdjson.Valid(b) {
+				infoErr = fmt.Sprintf("informer at depth %d renders %s (err=%v)", depth, trunc(string(b), 80), e)
+				return
+			}
+			if oi, ok := inf.(openapi.ObjectInformer); ok && depth < 3 {
+				for _, pi := range oi.PropertiesInfos() {
+					_ = pi.Key()
+					_ = pi.Optional()
+					walk(pi, depth+1)
+				}
+			}
+		}
+		for _, inf := range openapi.Dereference(root) {
+			walk(inf, 0)
+		}
 	})
 	if err != nil || (rec == nil && !hasRoot) {
 		w.Class("out-of-domain")
@@ -98,6 +120,10 @@ func c08Case(w *core.W, p *project, family string) bool {
 	}
 	if oasErr != nil || compErr != "" {
 		fail("conversion-succeeds", fmt.Sprintf("OpenAPI conversion failed: %v %s", oasErr, compErr), nil)
+		return true
+	}
+	if infoErr != "" {
+		fail("conversion-succeeds", "Dereference: "+infoErr, map[string]string{"via": "dereference"})
 		return true
 	}
 	sch, serr := ref.DecodeAny(oas)
@@ -297,6 +323,15 @@ func c08Run(w *core.W) {
 			"\t\"\": 1,\n\t@s: \"v\"", "\t@s: 1,\n\t\"\": true,\n\t\"@s\": 2", "\t\"\": {\n\t\t@s: 1\n\t}"} {
 			if mine() {
 				c08Case(w, &project{Root: "{" + ap + "\n" + body + "\n}", Types: map[string]string{"@s": c05Defs["@s"], "@o": c05Defs["@o"], "@i": `1 // {min: 0}`, "@arr": "[\n\t1\n]"}}, "key-shortcuts")
+			}
+		}
+	}
+	// (7) regex user types in every kind of reference
+	for _, body := range []string{"@r", "{\n\t\"k\": @r\n}", "[\n\t@r\n]", `"aab" // {type: "@r"}`, "@r | @s", `"aab" // {or: ["@r", "integer"]}`,
+		"{\n\t@r: 1\n}", "{} // {additionalProperties: \"@r\"}", "{\n\t\"k\": @r, // {optional: true}\n\t\"m\": @q\n}"} {
+		for _, re := range []string{"/a+b/", "/[a-c]{2,4}\\d/", "/x|y/", "/\\//"} {
+			if mine() {
+				c08Case(w, &project{Root: body, Types: map[string]string{"@s": c05Defs["@s"], "@q": "{\n\t\"r\": @r\n}"}, Regex: map[string]string{"@r": re}}, "regex-types")
 			}
 		}
 	}
